@@ -33,7 +33,7 @@ LINK_EXCL = """[ exclusions ]
            rejects=(), selector_only=True, must_cover=["mixed", "uniform", "explicit block exclusion", "link exclusion", "three distances", "ring block", "explicit link"],
            stubs=["apply_links.tqdm -> plain iteration"],
            outside=["residue graphs / blocks larger than the bound", "exclusion distances above 4"],
-           bounds={"quick": dict(nmax=3, excl=[0, 1, 3], sizes=[3, "ring"]), "thorough": dict(nmax=4, excl=[0, 2, 4], sizes=[1, "ring"])},
+           bounds={"quick": dict(nmax=3, excl=[0, 1, 3], sizes=[3, "ring"]), "thorough": dict(nmax=4, excl=[0, 2, 4], sizes=[3, "ring"])},
            budget={"quick": 280, "thorough": 1500})
 def exclusions(sx, B):
     """Real tag_exclusions/MapToMolecule/ApplyLinks(expand_excl, neighborhood) on residue graphs whose residues come from up to three
